@@ -278,6 +278,7 @@ func checkC08(r *Run) {
 	r.Rule("C08.R1.layout", "encoder and decoder agree position by position on (flag guard, primitive) for the header and the series section; flag bit positions are pairwise distinct and bound to the same field on both sides; writeTimeRange/readTimeRange agree", 4)
 	r.Rule("C08.R2.alloc", "every allocation in the decode call tree whose size derives from bytes read off the wire is dominated by a bound check against an untainted value (or clamped by min)", 1)
 	r.Rule("C08.R4.order", "the encoder's sort order is total: sorter.Less is the strict lexicographic order on (keys, alignments, rawIndices), so series of one channel with equal alignment keep their order under the unstable sort.Sort", 1)
+	r.Rule("C08.R7.publish", "Codec.update puts the new channel-set state into the updates channel before it raises the updateAvailable flag: processUpdates clears the flag and drains the channel, so a flag raised first can be consumed while the channel is still empty and the state is stranded (the encoder stays on the stale key set)", 1)
 	r.Rule("C08.R6.states", "the codec's backlog of channel-set states only grows: Codec.mu.states is allocated by the constructor and extended by processUpdates, and no entry is deleted or replaced (a frame encoded k updates ago must still decode)", 2)
 	r.Rule("C08.R5.fullread", "binary.Reader takes bytes from its underlying io.Reader only through io.ReadFull: the decoder discards the byte counts and assumes every read filled its buffer, and stream transports deliver messages in chunks", 4)
 	r.Rule("C08.R3.nopanic", "no builtin panic / lo.Must is reachable through static calls from the decode entry points", 4)
@@ -287,6 +288,7 @@ func checkC08(r *Run) {
 	checkDecodeNoPanic(r, p)
 	checkFullReads(r, p)
 	checkStateBacklog(r, p)
+	checkUpdatePublishOrder(r, p)
 	if less := p.Func(codecPkg, "sorter", "Less"); less == nil {
 		r.Undecide("C08.R4: sorter.Less not found")
 	} else {
@@ -958,4 +960,53 @@ func checkStateBacklog(r *Run, p *Prog) {
 	if n < 2 {
 		r.Undecide("C08.R6: only %d writes of Codec.mu.states found (expected 2)", n)
 	}
+}
+
+// checkUpdatePublishOrder decides C08.R7.
+func checkUpdatePublishOrder(r *Run, p *Prog) {
+	fn := p.Func(codecPkg, "Codec", "update")
+	if fn == nil {
+		r.Undecide("C08.R7: Codec.update not found")
+		return
+	}
+	c := p.CFG(fn)
+	isSend := func(n ast.Node) bool {
+		send, ok := n.(*ast.SendStmt)
+		if !ok {
+			return false
+		}
+		sel, ok := ast.Unparen(send.Chan).(*ast.SelectorExpr)
+		return ok && sel.Sel.Name == "updates"
+	}
+	flags := c.NodesWhere(func(n ast.Node) bool {
+		return nodeHasCall(fn, n, func(o types.Object, call *ast.CallExpr) bool {
+			f, ok := o.(*types.Func)
+			if !ok || f.Name() != "Store" || len(call.Args) != 1 {
+				return false
+			}
+			sel, ok := ast.Unparen(call.Fun).(*ast.SelectorExpr)
+			if !ok {
+				return false
+			}
+			inner, ok := ast.Unparen(sel.X).(*ast.SelectorExpr)
+			if !ok || inner.Sel.Name != "updateAvailable" {
+				return false
+			}
+			id, ok := ast.Unparen(call.Args[0]).(*ast.Ident)
+			return ok && id.Name == "true"
+		})
+	})
+	if len(flags) == 0 || len(c.NodesWhere(isSend)) == 0 {
+		r.Undecide("C08.R7: Codec.update no longer raises updateAvailable / sends on updates (unknown hand-off)")
+		return
+	}
+	q, vis := c.ReachAvoiding([]Point{c.Entry()}, nil, isSend)
+	var path []string
+	for _, fp := range flags {
+		if vis[fp] {
+			path = q.PathTo(fp)
+		}
+	}
+	r.ObPath("C08.R7.publish", "Codec.update publishes the state before raising the flag", p.Position(fn.Pos()), path == nil,
+		"the flag is raised before the state is in the channel: a processUpdates that runs in between clears the flag, finds nothing, and nothing re-raises it", path)
 }
